@@ -127,7 +127,10 @@ Qed.
 
 Definition has_slash (s : bytes) : bool := existsb (beqb slash) s.
 Definition upper_us (s : bytes) : bool := forallb (fun c => is_ascii_uppercase c || beqb c underscore) s.
-Definition valid_partial (s : bytes) : bool := valid_tag s && negb (bytes_eqb s [at_]).
+(* the known deviation: the name is exactly "@" *)
+Definition standalone_at (s : bytes) : bool := bytes_eqb s [at_].
+(* git's notion of a partial name / a full name, in terms of [valid_tag] (see ProofsGit) *)
+Definition valid_partial (s : bytes) : bool := valid_tag s && negb (standalone_at s).
 Definition valid_full (s : bytes) : bool := valid_partial s && (has_slash s || upper_us s).
 
 Lemma tag_name_ok s : is_ok (tag_name s) = valid_tag s /\ tag_name s <> Panic /\ tag_name s <> OutOfFuel
@@ -139,24 +142,29 @@ Proof.
 Qed.
 
 Lemma ref_name_partial_ok s :
-  is_ok (ref_name_partial s) = valid_partial s /\ ref_name_partial s <> Panic /\ ref_name_partial s <> OutOfFuel
+  is_ok (ref_name_partial s) = valid_tag s /\ ref_name_partial s <> Panic /\ ref_name_partial s <> OutOfFuel
   /\ (forall o, ref_name_partial s = Ok o -> o = s).
 Proof.
-  unfold ref_name_partial, validate, valid_partial. rewrite <- name_inner_validate_ok.
+  unfold ref_name_partial, validate. rewrite <- name_inner_validate_ok.
   destruct (name_inner_validate_shape s) as [->|[e ->]]; cbn [obind is_ok andb].
-  - destruct (bytes_eqb s [at_]); cbn [obind is_ok negb]; repeat split; try discriminate.
-    intros o H. now injection H.
+  - repeat split; try discriminate. intros o H. now injection H.
   - repeat split; discriminate.
 Qed.
+
+Lemma at_not_full s : standalone_at s = true -> has_slash s || upper_us s = false.
+Proof. unfold standalone_at. intros H. apply bytes_eqb_eq in H. subst s. reflexivity. Qed.
 
 Lemma ref_name_ok s :
   is_ok (ref_name s) = valid_full s /\ ref_name s <> Panic /\ ref_name s <> OutOfFuel
   /\ (forall o, ref_name s = Ok o -> o = s).
 Proof.
-  unfold ref_name, validate, valid_full, valid_partial. rewrite <- name_inner_validate_ok.
+  assert (Hv : valid_full s = valid_tag s && (has_slash s || upper_us s)).
+  { unfold valid_full, valid_partial. destruct (standalone_at s) eqn:E.
+    - rewrite (at_not_full s E). rewrite !Bool.andb_false_r. reflexivity.
+    - cbn [negb]. rewrite Bool.andb_true_r. reflexivity. }
+  rewrite Hv. unfold ref_name, validate. rewrite <- name_inner_validate_ok.
   destruct (name_inner_validate_shape s) as [->|[e ->]]; cbn [obind is_ok andb].
-  - destruct (bytes_eqb s [at_]); cbn [obind is_ok negb andb]; [repeat split; discriminate|].
-    fold (has_slash s). fold (upper_us s).
+  - fold (has_slash s). fold (upper_us s).
     destruct (has_slash s), (upper_us s); cbn [negb andb orb obind is_ok]; repeat split; try discriminate;
       intros o H; now injection H.
   - repeat split; discriminate.
